@@ -666,4 +666,484 @@ theorem ctrlCmd_ok (t : Trx) (crit : Int) (verb : List Nat) (args : Option (List
     simp only [hp, Bool.not_true, Bool.false_eq_true, if_false]
     exact ⟨_, rfl, rfl, hst, rfl, fun h => absurd h hq, fun _ => rfl⟩
 
+/-! ### SETFH: the mobile allocation text -/
+
+/-- the pair text of an ARFCN -/
+def pairOf (a : Nat) : List Nat := pairText (arfcn2freq10 a false) (arfcn2freq10 a true)
+
+/-- `ma_buf` before the last blank is overwritten -/
+def maText (ma : List Nat) : List Nat := ma.flatMap pairOf
+
+theorem fmtU_khz_len (f : Nat) (h1 : 4506 ≤ f) (h2 : f ≤ 26468) :
+    (fmtU (f * 100)).length = if f < 10000 then 6 else 7 := by
+  have hu : u32 (f * 100) = f * 100 := by simp only [u32]; omega
+  simp only [fmtU, hu]
+  split
+  · exact decFuel_length 5 9 _ (by omega) (by omega) (by omega)
+  · exact decFuel_length 6 9 _ (by omega) (by omega) (by omega)
+
+/-- characters a command is made of: no NUL -/
+def okChar (c : Nat) : Bool := isDigit c || c == 32
+
+theorem fmtU_chars (n : Nat) : ∀ c ∈ fmtU n, isDigit c = true := decFuel_digits 10 _
+
+theorem pairOf_facts (a : Nat) (h : ValidArfcn a) :
+    ((pairOf a).length = 14 ∨ (pairOf a).length = 16) ∧ (∀ c ∈ pairOf a, okChar c = true) ∧
+    (∃ body, pairOf a = body ++ [32]) ∧ arfcn2freq10 a false ≠ 65535 ∧ arfcn2freq10 a true ≠ 65535 := by
+  obtain ⟨ul, off, e1, e2, f1, f2, f3, f4⟩ := arfcn2freq10_valid a h
+  refine ⟨?_, ?_, ⟨_, rfl⟩, by omega, by omega⟩
+  · simp only [pairOf, pairText, List.length_append, List.length_singleton, e1, e2]
+    rw [fmtU_khz_len _ (by omega) (by omega), fmtU_khz_len _ (by omega) (by omega)]
+    rcases f4 with ⟨g1, g2⟩ | g
+    · rw [if_pos g2, if_pos g1]; left; rfl
+    · rw [if_neg (by omega), if_neg (by omega)]; right; rfl
+  · intro c hc
+    simp only [pairOf, pairText, List.mem_append, List.mem_singleton] at hc
+    simp only [okChar, Bool.or_eq_true, beq_iff_eq]
+    rcases hc with ((hc | hc) | hc) | hc
+    · left; exact fmtU_chars _ c hc
+    · right; exact hc
+    · left; exact fmtU_chars _ c hc
+    · right; exact hc
+
+theorem maText_cons (a : Nat) (ma : List Nat) : maText (a :: ma) = pairOf a ++ maText ma := by
+  simp [maText]
+
+theorem maText_pos (ma : List Nat) (hv : ∀ a ∈ ma, ValidArfcn a) (hne : ma ≠ []) : 14 ≤ (maText ma).length := by
+  cases ma with
+  | nil => exact absurd rfl hne
+  | cons a t =>
+    rw [maText_cons, List.length_append]
+    have := (pairOf_facts a (hv a (by simp))).1
+    omega
+
+/-- one step of the loop for a valid ARFCN -/
+theorem setfhLoop_step (a : Nat) (rest : List Nat) (n : Nat) (mem : List Nat) (room : Nat) (h : ValidArfcn a) :
+    setfhLoop (a :: rest) (n + 1) mem room =
+      if (pairOf a).length > room then .ok (.error (-eNOSPC))
+      else setfhLoop rest n (mem ++ (if (pairOf a).length < room then pairOf a
+                                    else snprintfStored room (pairOf a) ++ [0])) (room - (pairOf a).length) := by
+  obtain ⟨_, _, _, hrx, htx⟩ := pairOf_facts a h
+  simp only [setfhLoop, pairOf]
+  rw [if_neg (by omega)]
+  rfl
+
+/-- L1: everything fits with room to spare -/
+theorem setfhLoop_fits : ∀ (ma : List Nat) (mem : List Nat) (room : Nat), (∀ a ∈ ma, ValidArfcn a) →
+    (maText ma).length < room → setfhLoop ma ma.length mem room = .ok (.ok (mem ++ maText ma)) := by
+  intro ma
+  induction ma with
+  | nil => intro mem room _ _; simp [setfhLoop, maText]
+  | cons a t ih =>
+    intro mem room hv hl
+    rw [maText_cons, List.length_append] at hl
+    rw [List.length_cons, setfhLoop_step a t _ mem room (hv a (by simp))]
+    rw [if_neg (by omega), if_pos (by omega)]
+    rw [ih _ _ (fun x hx => hv x (by simp [hx])) (by omega), maText_cons]
+    simp
+
+/-- L3: it does not fit -/
+theorem setfhLoop_nospc : ∀ (ma : List Nat) (mem : List Nat) (room : Nat), (∀ a ∈ ma, ValidArfcn a) →
+    (maText ma).length > room → setfhLoop ma ma.length mem room = .ok (.error (-eNOSPC)) := by
+  intro ma
+  induction ma with
+  | nil => intro mem room _ h; simp [maText] at h
+  | cons a t ih =>
+    intro mem room hv hl
+    rw [maText_cons, List.length_append] at hl
+    rw [List.length_cons, setfhLoop_step a t _ mem room (hv a (by simp))]
+    by_cases h1 : (pairOf a).length > room
+    · rw [if_pos h1]
+    · rw [if_neg h1]
+      exact ih _ _ (fun x hx => hv x (by simp [hx])) (by omega)
+
+/-- L2: it fits exactly — the last blank is cut off by `snprintf` and the NUL stands in its place -/
+theorem setfhLoop_exact : ∀ (ma : List Nat) (mem : List Nat) (room : Nat), (∀ a ∈ ma, ValidArfcn a) → ma ≠ [] →
+    (maText ma).length = room →
+    setfhLoop ma ma.length mem room = .ok (.ok (mem ++ (maText ma).dropLast ++ [0])) := by
+  intro ma
+  induction ma with
+  | nil => intro mem room _ h; exact absurd rfl h
+  | cons a t ih =>
+    intro mem room hv _ hl
+    have hva := hv a (by simp)
+    obtain ⟨hlen, _, ⟨body, hbody⟩, _, _⟩ := pairOf_facts a hva
+    rw [maText_cons, List.length_append] at hl
+    rw [List.length_cons, setfhLoop_step a t _ mem room hva]
+    rw [if_neg (by omega)]
+    by_cases ht : t = []
+    · subst ht
+      have hm : (maText ([] : List Nat)).length = 0 := rfl
+      rw [hm] at hl
+      rw [if_neg (by omega)]
+      simp only [List.length_nil, setfhLoop, maText_cons, snprintfStored]
+      have : maText ([] : List Nat) = [] := rfl
+      rw [this, List.append_nil, ← hl, hbody]
+      simp
+    · have hpos := maText_pos t (fun x hx => hv x (by simp [hx])) ht
+      rw [if_pos (by omega)]
+      rw [ih _ _ (fun x hx => hv x (by simp [hx])) ht (by omega), maText_cons]
+      have hne : maText t ≠ [] := by intro e; rw [e] at hpos; simp at hpos
+      rw [List.dropLast_append_of_ne_nil hne]
+      simp
+
+theorem okChar_ne_zero (c : Nat) (h : okChar c = true) : c ≠ 0 := by
+  simp only [okChar, Bool.or_eq_true, beq_iff_eq, isDigit_iff] at h; omega
+
+theorem cstrAt_terminated (s : List Nat) (cap : Nat) (hc : 0 < cap) (h : ∀ c ∈ s, c ≠ 0) :
+    cstrAt (s ++ [0]) cap 0 = .ok s := by
+  simp only [cstrAt, List.drop_zero]
+  rw [if_neg (by omega)]
+  have h1 : (s ++ [0]).contains 0 = true := by simp
+  simp only [h1, if_true]
+  rw [List.takeWhile_append_of_pos (fun c hc => by simpa using h c hc)]
+  simp
+
+theorem maText_chars (ma : List Nat) (hv : ∀ a ∈ ma, ValidArfcn a) : ∀ c ∈ maText ma, okChar c = true := by
+  induction ma with
+  | nil => intro c hc; simp [maText] at hc
+  | cons a t ih =>
+    intro c hc
+    rw [maText_cons, List.mem_append] at hc
+    rcases hc with hc | hc
+    · exact (pairOf_facts a (hv a (by simp))).2.1 c hc
+    · exact ih (fun x hx => hv x (by simp [hx])) c hc
+
+theorem maText_even (ma : List Nat) (hv : ∀ a ∈ ma, ValidArfcn a) : (maText ma).length % 2 = 0 := by
+  induction ma with
+  | nil => rfl
+  | cons a t ih =>
+    rw [maText_cons, List.length_append]
+    have := (pairOf_facts a (hv a (by simp))).1
+    have := ih (fun x hx => hv x (by simp [hx]))
+    omega
+
+theorem maText_le (ma : List Nat) (hv : ∀ a ∈ ma, ValidArfcn a) :
+    14 * ma.length ≤ (maText ma).length ∧ (maText ma).length ≤ 16 * ma.length := by
+  induction ma with
+  | nil => exact ⟨Nat.le_refl _, Nat.le_refl _⟩
+  | cons a t ih =>
+    rw [maText_cons, List.length_append, List.length_cons]
+    have := (pairOf_facts a (hv a (by simp))).1
+    have := ih (fun x hx => hv x (by simp [hx]))
+    omega
+
+theorem mem_dropLast {l : List Nat} {c : Nat} (h : c ∈ l.dropLast) : c ∈ l := by
+  by_cases hl : l = []
+  · subst hl; simp at h
+  · rw [← List.dropLast_concat_getLast hl]; exact List.mem_append_left _ h
+
+/-- `trx_if_cmd_setfh` before `trx_ctrl_cmd`: the string in `ma_buf`, or `-ENOSPC` -/
+theorem setfhMaBuf_eq (ma : List Nat) (hne : ma ≠ []) (hv : ∀ a ∈ ma, ValidArfcn a) (hlen : ma.length < 4294967296) :
+    setfhMaBuf ma.length ma =
+      if (maText ma).length ≤ trxcBufSize - 24 - 1 then .ok (.ok (maText ma).dropLast) else .ok (.error (-eNOSPC)) := by
+  have hcap : trxcBufSize - 24 = 1000 := by decide
+  have hu : u32 ma.length = ma.length := by simp only [u32]; omega
+  have hl0 : ma.length ≠ 0 := by intro e; exact hne (List.eq_nil_of_length_eq_zero e)
+  have hie : ma.isEmpty = false := by cases ma with | nil => exact absurd rfl hne | cons => rfl
+  have hpos := maText_pos ma hv hne
+  have hch : ∀ c ∈ (maText ma).dropLast, c ≠ 0 := fun c hc => okChar_ne_zero c (maText_chars ma hv c (mem_dropLast hc))
+  simp only [setfhMaBuf, hcap, hu, bind, Except.bind, pure, Except.pure]
+  rw [if_neg (by simp [hl0, hie])]
+  by_cases h1 : (maText ma).length < 999
+  · rw [setfhLoop_fits ma [] 999 hv h1, if_pos (by omega)]
+    simp only [List.nil_append]
+    have hne' : (maText ma).isEmpty = false := by
+      cases hm : maText ma with
+      | nil => rw [hm] at hpos; simp at hpos
+      | cons => rfl
+    simp only [hne', Bool.false_eq_true, if_false, throw, throwThe, MonadExceptOf.throw]
+    rw [cstrAt_terminated _ 1000 (by omega) hch]
+  · by_cases h2 : (maText ma).length = 999
+    · rw [setfhLoop_exact ma [] 999 hv hne h2, if_pos (by omega)]
+      simp only [List.nil_append]
+      have hne' : ((maText ma).dropLast ++ [0]).isEmpty = false := by simp
+      simp only [hne', Bool.false_eq_true, if_false, List.dropLast_concat]
+      rw [cstrAt_terminated _ 1000 (by omega) hch]
+    · rw [setfhLoop_nospc ma [] 999 hv (by omega), if_neg (by omega)]
+
+/-! ### what `trx_if_handle_phyif_cmd` emits -/
+
+/-- one emitted command: criticality, verb, argument tokens -/
+structure Emitted where
+  critical : Int
+  verb : List Nat
+  args : List (List Nat)
+
+/-- `CMD <VERB>[ <arg>]*` -/
+def Emitted.text (e : Emitted) : List Nat := str "CMD " ++ e.verb ++ e.args.flatMap (fun a => 32 :: a)
+def Emitted.msg (e : Emitted) : CtrlMsg := ⟨e.text, e.critical, e.verb.length⟩
+
+/-- the two frequency tokens of an ARFCN in `CMD SETFH` -/
+def pairToks (a : Nat) : List (List Nat) := [fmtU (arfcn2freq10 a false * 100), fmtU (arfcn2freq10 a true * 100)]
+
+/-- the commands `trx_if_handle_phyif_cmd` queues for a PHYIF command -/
+def emitSpec : PhyCmd → List Emitted
+  | .reset => [⟨1, str "POWEROFF", []⟩, ⟨1, str "ECHO", []⟩]
+  | .poweron => [⟨1, str "POWERON", []⟩]
+  | .poweroff => [⟨1, str "POWEROFF", []⟩]
+  | .measure a => [⟨1, str "MEASURE", [fmtU (arfcn2freq10 a false * 100)]⟩]
+  | .setfreqH0 a => [⟨1, str "RXTUNE", [fmtU (arfcn2freq10 a false * 100)]⟩,
+                     ⟨1, str "TXTUNE", [fmtU (arfcn2freq10 a true * 100)]⟩]
+  | .setfreqH1 hsn maio _ ma => [⟨1, str "SETFH", fmtU (u8 hsn) :: fmtU (u8 maio) :: ma.flatMap pairToks⟩]
+  | .setslot tn pchan => match chanTypes[u8 pchan]? with
+      | some ct => [⟨1, str "SETSLOT", [fmtU (u8 tn), fmtU ct]⟩]
+      | none => []
+  | .setta ta => [⟨0, str "SETTA", [fmtD (s8i ta)]⟩]
+  | .raw _ => []
+
+/-- the PHYIF commands trxcon's L1 side may issue: defined ARFCNs, a channel configuration of
+`enum gsm_phys_chan_config`, a mobile allocation whose text fits `ma_buf` -/
+def ValidCmd : PhyCmd → Prop
+  | .measure a => ValidArfcn a
+  | .setfreqH0 a => ValidArfcn a
+  | .setfreqH1 _ _ n ma => n = ma.length ∧ ma ≠ [] ∧ (∀ a ∈ ma, ValidArfcn a) ∧ (maText ma).length ≤ 999
+  | .setslot _ pchan => u8 pchan < chanTypes.length
+  | .raw _ => False
+  | _ => True
+
+theorem fmtU_len_le (n : Nat) : (fmtU n).length ≤ 10 :=
+  decFuel_length_le 10 10 _ (by omega) (by omega) (by simp only [u32]; omega)
+
+theorem fmtU_u8_len_le (x : Nat) : (fmtU (u8 x)).length ≤ 3 :=
+  decFuel_length_le 3 10 _ (by omega) (by omega) (by simp only [u32, u8]; omega)
+
+theorem fmtD_len_le (x : Int) : (fmtD x).length ≤ 11 := by
+  have hb : -2147483648 ≤ s32i x ∧ s32i x ≤ 2147483647 := by simp only [s32i, s32]; split <;> omega
+  simp only [fmtD]
+  split
+  · have := decFuel_length_le 10 10 (s32i x).natAbs (by omega) (by omega) (by omega)
+    simp only [List.length_cons]; omega
+  · have := decFuel_length_le 10 10 (s32i x).toNat (by omega) (by omega) (by omega)
+    omega
+
+theorem fmtU_nz (n : Nat) : ∀ c ∈ fmtU n, c ≠ 0 := by
+  intro c hc; have := fmtU_chars n c hc; rw [isDigit_iff] at this; omega
+
+theorem fmtD_nz (x : Int) : ∀ c ∈ fmtD x, c ≠ 0 := by
+  intro c hc
+  simp only [fmtD] at hc
+  split at hc
+  · simp only [List.mem_cons] at hc
+    rcases hc with hc | hc
+    · omega
+    · have := decFuel_digits 10 _ c hc; rw [isDigit_iff] at this; omega
+  · have := decFuel_digits 10 _ c hc; rw [isDigit_iff] at this; omega
+
+/-- `32 :: ma_buf` is the token list rendered with leading blanks -/
+theorem maText_toks (ma : List Nat) (hne : ma ≠ []) :
+    32 :: (maText ma).dropLast = (ma.flatMap pairToks).flatMap (fun a => 32 :: a) := by
+  have key : ∀ ma : List Nat, 32 :: maText ma = (ma.flatMap pairToks).flatMap (fun a => 32 :: a) ++ [32] := by
+    intro ma
+    induction ma with
+    | nil => rfl
+    | cons a t ih =>
+      rw [maText_cons, List.flatMap_cons, List.flatMap_append]
+      simp only [pairOf, pairText, pairToks, List.flatMap_cons, List.flatMap_nil, List.append_nil]
+      simp only [List.append_assoc, List.cons_append, List.nil_append]
+      rw [ih]
+  have hne' : maText ma ≠ [] := by
+    cases ma with
+    | nil => exact absurd rfl hne
+    | cons a t => rw [maText_cons]; simp [pairOf, pairText]
+  have h2 : 32 :: maText ma = (32 :: (maText ma).dropLast) ++ [(maText ma).getLast hne'] := by
+    rw [List.cons_append, List.dropLast_concat_getLast]
+  have h3 := key ma
+  rw [h2] at h3
+  exact (List.append_inj' h3 rfl).1
+
+
+theorem str_nz (s : String) (h : (str s).all (· ≠ 0) = true) : ∀ c ∈ str s, c ≠ 0 := by
+  intro c hc
+  have := List.all_eq_true.mp h c hc
+  simpa using this
+
+/-- one `trx_ctrl_cmd` call in terms of `Emitted` -/
+theorem ctrlCmd_emit (t : Trx) (e : Emitted) (args : Option (List Nat)) (hst : t.state < 4)
+    (htext : cmdText e.verb args = e.text) (hfit : e.text.length + 2 ≤ cmdSize) (hnz : ∀ c ∈ e.text, c ≠ 0) :
+    ∃ t', ctrlCmd t e.critical e.verb args = .ok (0, t') ∧ t'.queue = t.queue ++ [e.msg] ∧ t'.state < 4 ∧
+      t'.elog = t.elog ∧ (t.queue = [] → t'.sent = t.sent ++ [e.text ++ [0]]) ∧ (t.queue ≠ [] → t'.sent = t.sent) := by
+  obtain ⟨t', h1, h2, h3, h4, h5, h6⟩ := ctrlCmd_ok t e.critical e.verb args hst (by rw [htext]; exact hfit)
+  rw [htext] at h2 h5
+  refine ⟨t', h1, h2, h3, h4, ?_, h6⟩
+  intro hq
+  rw [h5 hq, cmdStrAt_zero _ hnz]
+
+theorem emit_noargs (t : Trx) (crit : Int) (verb : String) (hst : t.state < 4)
+    (hfit : (str "CMD " ++ str verb).length + 2 ≤ cmdSize) (hnz : (str verb).all (· ≠ 0) = true) :
+    ∃ t', ctrlCmd t crit (str verb) none = .ok (0, t') ∧ t'.queue = t.queue ++ [(⟨crit, str verb, []⟩ : Emitted).msg] ∧
+      t'.state < 4 ∧ t'.elog = t.elog ∧
+      (t.queue = [] → t'.sent = t.sent ++ [(⟨crit, str verb, []⟩ : Emitted).text ++ [0]]) ∧ (t.queue ≠ [] → t'.sent = t.sent) := by
+  apply ctrlCmd_emit t ⟨crit, str verb, []⟩ none hst
+  · simp [cmdText, Emitted.text]
+  · simpa [Emitted.text] using hfit
+  · intro c hc
+    simp only [Emitted.text, List.flatMap_nil, List.append_nil, List.mem_append] at hc
+    rcases hc with hc | hc
+    · exact str_nz "CMD " (by decide) c hc
+    · exact str_nz verb hnz c hc
+
+
+theorem cmd_nz : ∀ c ∈ str "CMD ", c ≠ 0 := str_nz "CMD " (by decide)
+
+/-- a command with argument tokens: fits and has no NUL when the tokens are short and NUL-free -/
+theorem emit_args (t : Trx) (crit : Int) (verb : String) (toks : List (List Nat)) (a : List Nat) (hst : t.state < 4)
+    (ha : str "CMD " ++ str verb ++ [32] ++ a = str "CMD " ++ str verb ++ toks.flatMap (fun x => 32 :: x))
+    (hfit : (str "CMD " ++ str verb ++ [32] ++ a).length + 2 ≤ cmdSize)
+    (hnzv : (str verb).all (· ≠ 0) = true) (hnz : ∀ c ∈ a, c ≠ 0) :
+    ∃ t', ctrlCmd t crit (str verb) (some a) = .ok (0, t') ∧
+      t'.queue = t.queue ++ [(⟨crit, str verb, toks⟩ : Emitted).msg] ∧ t'.state < 4 ∧ t'.elog = t.elog ∧
+      (t.queue = [] → t'.sent = t.sent ++ [(⟨crit, str verb, toks⟩ : Emitted).text ++ [0]]) ∧
+      (t.queue ≠ [] → t'.sent = t.sent) := by
+  apply ctrlCmd_emit t ⟨crit, str verb, toks⟩ (some a) hst
+  · simp only [cmdText, Emitted.text]; exact ha
+  · simp only [Emitted.text]; rw [← ha]; exact hfit
+  · intro c hc
+    simp only [Emitted.text] at hc
+    rw [← ha] at hc
+    simp only [List.mem_append, List.mem_singleton] at hc
+    rcases hc with ((hc | hc) | hc) | hc
+    · exact cmd_nz c hc
+    · exact str_nz verb hnzv c hc
+    · omega
+    · exact hnz c hc
+
+theorem cPhyCmd_emits (t : Trx) (c : PhyCmd) (hq : t.queue = []) (hst : t.state < 4) (hv : ValidCmd c) :
+    ∃ t', cPhyCmd t c = .ok (0, t') ∧ t'.queue = (emitSpec c).map Emitted.msg ∧ t'.elog = t.elog ∧ t'.state < 4 ∧
+      (∀ e rest, emitSpec c = e :: rest → t'.sent = t.sent ++ [e.text ++ [0]]) := by
+  have hsz : cmdSize = 1024 := by decide
+  cases c with
+  | reset =>
+    obtain ⟨t1, h1, q1, s1, e1, n1, _⟩ := emit_noargs t 1 "POWEROFF" hst (by decide) (by decide)
+    obtain ⟨t2, h2, q2, s2, e2, _, m2⟩ := emit_noargs t1 1 "ECHO" s1 (by decide) (by decide)
+    have hne : t1.queue ≠ [] := by rw [q1]; simp
+    refine ⟨t2, ?_, ?_, ?_, s2, ?_⟩
+    · simp only [cPhyCmd, h1, h2, bind, Except.bind, pure, Except.pure]; rfl
+    · rw [q2, q1, hq]; rfl
+    · rw [e2, e1]
+    · intro e rest he
+      simp only [emitSpec, List.cons.injEq] at he
+      rw [m2 hne, n1 hq, ← he.1]
+  | poweron =>
+    obtain ⟨t1, h1, q1, s1, e1, n1, _⟩ := emit_noargs t 1 "POWERON" hst (by decide) (by decide)
+    refine ⟨t1, h1, by rw [q1, hq]; rfl, e1, s1, ?_⟩
+    intro e rest he
+    simp only [emitSpec, List.cons.injEq] at he
+    rw [n1 hq, ← he.1]
+  | poweroff =>
+    obtain ⟨t1, h1, q1, s1, e1, n1, _⟩ := emit_noargs t 1 "POWEROFF" hst (by decide) (by decide)
+    refine ⟨t1, h1, by rw [q1, hq]; rfl, e1, s1, ?_⟩
+    intro e rest he
+    simp only [emitSpec, List.cons.injEq] at he
+    rw [n1 hq, ← he.1]
+  | measure a =>
+    simp only [ValidCmd, ValidArfcn] at hv
+    have hl := fmtU_len_le (arfcn2freq10 a false * 100)
+    obtain ⟨t1, h1, q1, s1, e1, n1, _⟩ := emit_args t 1 "MEASURE" [fmtU (arfcn2freq10 a false * 100)]
+      (fmtU (arfcn2freq10 a false * 100)) hst (by simp) (by
+        simp only [List.length_append, List.length_singleton, hsz]
+        have : (str "CMD ").length = 4 := by decide
+        have : (str "MEASURE").length = 7 := by decide
+        omega) (by decide) (fmtU_nz _)
+    refine ⟨t1, ?_, by rw [q1, hq]; rfl, e1, s1, ?_⟩
+    · simp only [cPhyCmd]; rw [if_neg hv]; exact h1
+    · intro e rest he
+      simp only [emitSpec, List.cons.injEq] at he
+      rw [n1 hq, ← he.1]
+  | setfreqH0 a =>
+    simp only [ValidCmd] at hv
+    obtain ⟨_, _, _, hrx, htx⟩ := pairOf_facts a hv
+    have hl := fmtU_len_le (arfcn2freq10 a false * 100)
+    have hl2 := fmtU_len_le (arfcn2freq10 a true * 100)
+    obtain ⟨t1, h1, q1, s1, e1, n1, _⟩ := emit_args t 1 "RXTUNE" [fmtU (arfcn2freq10 a false * 100)]
+      (fmtU (arfcn2freq10 a false * 100)) hst (by simp) (by
+        simp only [List.length_append, List.length_singleton, hsz]
+        have : (str "CMD ").length = 4 := by decide
+        have : (str "RXTUNE").length = 6 := by decide
+        omega) (by decide) (fmtU_nz _)
+    obtain ⟨t2, h2, q2, s2, e2, _, m2⟩ := emit_args t1 1 "TXTUNE" [fmtU (arfcn2freq10 a true * 100)]
+      (fmtU (arfcn2freq10 a true * 100)) s1 (by simp) (by
+        simp only [List.length_append, List.length_singleton, hsz]
+        have : (str "CMD ").length = 4 := by decide
+        have : (str "TXTUNE").length = 6 := by decide
+        omega) (by decide) (fmtU_nz _)
+    have hne : t1.queue ≠ [] := by rw [q1]; simp
+    refine ⟨t2, ?_, ?_, ?_, s2, ?_⟩
+    · simp only [cPhyCmd, bind, Except.bind, pure, Except.pure]
+      rw [if_neg hrx]
+      simp only [h1]
+      rw [if_neg (by decide), if_neg htx]
+      exact h2
+    · rw [q2, q1, hq]; rfl
+    · rw [e2, e1]
+    · intro e rest he
+      simp only [emitSpec, List.cons.injEq] at he
+      rw [m2 hne, n1 hq, ← he.1]
+  | setfreqH1 hsn maio n ma =>
+    simp only [ValidCmd] at hv
+    obtain ⟨hn, hne, hval, hlen⟩ := hv
+    subst hn
+    have hbound := maText_le ma hval
+    have hcap : trxcBufSize - 24 - 1 = 999 := by decide
+    have hbuf := setfhMaBuf_eq ma hne hval (by omega)
+    rw [hcap, if_pos hlen] at hbuf
+    have hl1 := fmtU_u8_len_le hsn
+    have hl2 := fmtU_u8_len_le maio
+    have htoks := maText_toks ma hne
+    obtain ⟨t1, h1, q1, s1, e1, n1, _⟩ := emit_args t 1 "SETFH" (fmtU (u8 hsn) :: fmtU (u8 maio) :: ma.flatMap pairToks)
+      (fmtU (u8 hsn) ++ [32] ++ fmtU (u8 maio) ++ [32] ++ (maText ma).dropLast) hst (by
+        simp only [List.flatMap_cons, ← htoks]; simp) (by
+        simp only [List.length_append, List.length_singleton, List.length_dropLast, hsz]
+        have : (str "CMD ").length = 4 := by decide
+        have : (str "SETFH").length = 5 := by decide
+        omega) (by decide) (by
+        intro c hc
+        simp only [List.mem_append, List.mem_singleton] at hc
+        rcases hc with (((hc | hc) | hc) | hc) | hc
+        · exact fmtU_nz _ c hc
+        · omega
+        · exact fmtU_nz _ c hc
+        · omega
+        · exact okChar_ne_zero c (maText_chars ma hval c (mem_dropLast hc)))
+    refine ⟨t1, ?_, by rw [q1, hq]; rfl, e1, s1, ?_⟩
+    · simp only [cPhyCmd, hbuf, bind, Except.bind]; exact h1
+    · intro e rest he
+      simp only [emitSpec, List.cons.injEq] at he
+      rw [n1 hq, ← he.1]
+  | setslot tn pchan =>
+    simp only [ValidCmd] at hv
+    have hg : chanTypes[u8 pchan]? = some (chanTypes[u8 pchan]'hv) := List.getElem?_eq_getElem hv
+    have hl1 := fmtU_len_le (u8 tn)
+    have hl2 := fmtU_len_le (chanTypes[u8 pchan]'hv)
+    obtain ⟨t1, h1, q1, s1, e1, n1, _⟩ := emit_args t 1 "SETSLOT" [fmtU (u8 tn), fmtU (chanTypes[u8 pchan]'hv)]
+      (fmtU (u8 tn) ++ [32] ++ fmtU (chanTypes[u8 pchan]'hv)) hst (by simp) (by
+        simp only [List.length_append, List.length_singleton, hsz]
+        have : (str "CMD ").length = 4 := by decide
+        have : (str "SETSLOT").length = 7 := by decide
+        omega) (by decide) (by
+        intro c hc
+        simp only [List.mem_append, List.mem_singleton] at hc
+        rcases hc with (hc | hc) | hc
+        · exact fmtU_nz _ c hc
+        · omega
+        · exact fmtU_nz _ c hc)
+    refine ⟨t1, ?_, ?_, e1, s1, ?_⟩
+    · simp only [cPhyCmd, hg]; exact h1
+    · rw [q1, hq]; simp only [emitSpec, hg]; rfl
+    · intro e rest he
+      simp only [emitSpec, hg, List.cons.injEq] at he
+      rw [n1 hq, ← he.1]
+  | setta ta =>
+    have hl := fmtD_len_le (s8i ta)
+    obtain ⟨t1, h1, q1, s1, e1, n1, _⟩ := emit_args t 0 "SETTA" [fmtD (s8i ta)] (fmtD (s8i ta)) hst (by simp) (by
+        simp only [List.length_append, List.length_singleton, hsz]
+        have : (str "CMD ").length = 4 := by decide
+        have : (str "SETTA").length = 5 := by decide
+        omega) (by decide) (fmtD_nz _)
+    refine ⟨t1, h1, by rw [q1, hq]; rfl, e1, s1, ?_⟩
+    intro e rest he
+    simp only [emitSpec, List.cons.injEq] at he
+    rw [n1 hq, ← he.1]
+  | raw ty => exact absurd hv (by simp [ValidCmd])
+
 end OsmoVerif.TrxconIf
